@@ -17,7 +17,7 @@
    [log_arrays nodes [S;I;R] tmin st evs] = the row (tmin, census st) followed by one row per
    event: its time and the census of the statuses after replaying the events up to it. *)
 From EoNV Require Import Prelude Samp Graph EventSIR EventSIRP EventSIRInv EventSIRMain EventSIRPred.
-From EoNV Require Import Investigation EventSIRLog EventSIRRows EventSIRTraj EventSIRC04 EventSIRFifo.
+From EoNV Require Import Investigation EventSIRLog EventSIRRows EventSIRTraj EventSIRC04 EventSIRFifo EventSIRChk EventSIRChkP.
 From EoNV Require Gillespie GillespieP.
 From Coq Require Import Permutation.
 
@@ -114,6 +114,23 @@ Theorem C04_esir_unbounded_run_ends_without_infection : forall tb g delay dur i0
     Gillespie.cnt (snd (last (so_rows out) (0, []))) 1 = 0%Z.
 Proof. exact esir_unbounded_no_infected. Qed.
 
+(* --- the decidable checker [wf_trajb] (Model/EventSIRChk.v; extracted and applied to the
+   IMPLEMENTATION's arrays by harness/esir_lib.py [xchk]): every run of the model passes it,
+   and acceptance means: first time = tmin, times non-decreasing and < tmax, consecutive rows
+   one infection (S-1,I+1) or one recovery (I-1,R+1) apart, counts non-negative summing to N *)
+Theorem C04_esir_checker_accepts_every_run : forall tb g delay dur i0 r0 tmin tmax full fuel,
+  esir_okb2 g delay dur i0 r0 tmin tmax = true -> (esir_fuel g i0 <= fuel)%nat ->
+  exists out cs, esir_det tb g delay dur i0 r0 tmin tmax full fuel = Ok (out, cs) /\
+                 wf_trajb g tmin tmax (so_rows out) = true.
+Proof. exact esir_rows_pass_checker. Qed.
+
+Theorem C04_esir_checker_sound : forall g tmin tmax l, wf_trajb g tmin tmax l = true ->
+  (exists r l', l = r :: l' /\ fst r == tmin) /\
+  (forall (l1 : list row) (a b : row) (l2 : list row), l = l1 ++ a :: b :: l2 ->
+     fst a <= fst b /\ xlt (fst b) tmax = true /\ move_spec (snd a) (snd b)) /\
+  (forall x, In x l -> row_spec (order g) (snd x)).
+Proof. exact wf_trajb_sound. Qed.
+
 (* ---------------- non-vacuity ---------------- *)
 (* the triangle of Props/C11.v: delays 0->1 = 1, 0->2 = 3, others 1; durations 2 *)
 Definition g3 : graph :=
@@ -157,6 +174,17 @@ Example C04_esir_start_condition_needed :
   end.
 Proof. vm_compute. repeat split. Qed.
 
+(* the checker accepts the arrays of the example run and rejects: a first time other than
+   tmin, a double move in one row, counts not summing to N, a time at tmax *)
+Example C04_esir_checker_rejects :
+  wf_trajb g3 (1#2) None [(1#2, [2;1;0]%Z); (3#2, [1;2;0]%Z); (5#2, [1;1;1]%Z)] = true /\
+  wf_trajb g3 0 None [(1#2, [2;1;0]%Z); (3#2, [1;2;0]%Z)] = false /\
+  wf_trajb g3 (1#2) None [(1#2, [2;1;0]%Z); (3#2, [0;3;0]%Z)] = false /\
+  wf_trajb g3 (1#2) None [(1#2, [2;1;0]%Z); (3#2, [1;1;0]%Z)] = false /\
+  wf_trajb g3 (1#2) (Some (3#2)) [(1#2, [2;1;0]%Z); (3#2, [1;2;0]%Z)] = false.
+Proof. vm_compute. repeat split. Qed.
+
+Print Assumptions C04_esir_checker_rejects.
 Print Assumptions C04_esir_rows_well_formed.
 Print Assumptions C04_esir_first_row_as_requested.
 Print Assumptions C04_esir_first_row_as_requested_fifo.
@@ -166,6 +194,8 @@ Print Assumptions C04_esir_consecutive_rows.
 Print Assumptions C04_esir_counts_nonnegative_and_sum_to_N.
 Print Assumptions C04_esir_SIR_monotone.
 Print Assumptions C04_esir_unbounded_run_ends_without_infection.
+Print Assumptions C04_esir_checker_accepts_every_run.
+Print Assumptions C04_esir_checker_sound.
 Print Assumptions C04_esir_hypotheses_satisfiable.
 Print Assumptions C04_esir_example_run.
 Print Assumptions C04_esir_start_condition_needed.
